@@ -91,7 +91,7 @@ func (c Cfg) Coq() string {
 	if c.Par {
 		par = "true"
 	}
-	return fmt.Sprintf("(mkCfg %d %s %d %s %s %s true %d %d false)", c.W, par, c.Buf, chanb, dcap, pol, c.InF, c.OutF)
+	return fmt.Sprintf("(mkCfg %d %s %d %s %s %s true %d %d false false)", c.W, par, c.Buf, chanb, dcap, pol, c.InF, c.OutF)
 }
 
 func (c Cfg) Key() string {
@@ -413,6 +413,7 @@ type Runner struct {
 	actx    context.Context
 	acancel context.CancelFunc
 	awg     sync.WaitGroup
+	deadPubs int
 }
 
 func NewRunner(c Cfg) *Runner {
@@ -650,6 +651,60 @@ func (r *Runner) Foreign() *Sub {
 	close(s.done)
 	r.Subs = append(r.Subs, s)
 	return s
+}
+
+// DeadCalls issues API calls whose own context is already over (or is
+// cancelled at the moment of the call) on the live broker, each while the event
+// loop is parked in its select, i.e. while the hand-off to the loop is possible.
+// A call that comes back empty-handed must have had no effect: afterwards the
+// number of subscriptions the loop reports is exactly the number the harness
+// holds. A Subscribe that does return a channel (possible with an expiring
+// context) is an ordinary subscriber from then on.
+func (r *Runner) DeadCalls(n int, expiring bool) {
+	for i := 0; i < n; i++ {
+		r.WaitLoopIdle()
+		ctx, cancel := context.WithCancel(context.Background())
+		if expiring && i%2 == 1 {
+			go cancel()
+		} else {
+			cancel()
+		}
+		switch i % 5 {
+		case 4:
+			// the select may pick either arm: the message is published or it is not;
+			// nobody is owed it, but if it is delivered it is a published message
+			r.deadPubs++
+			m := 800 + r.deadPubs
+			call := r.now()
+			r.B.Publish(ctx, m)
+			r.pmu.Lock()
+			r.Pubs = append(r.Pubs, PubRec{M: m, Pubr: 200, Call: call, Ret: r.now(), Returned: false})
+			r.pmu.Unlock()
+		case 0, 1:
+			r.flushSends()
+			ch := r.B.Subscribe(ctx)
+			if ch != nil {
+				s := &Sub{Idx: len(r.Subs), ch: ch, ctl: make(chan ctlMsg), quit: make(chan struct{}), done: make(chan struct{})}
+				s.SubRet = r.now()
+				s.Subscribed = true
+				r.Subs = append(r.Subs, s)
+				r.nsubscribed++
+				go s.run(false)
+				r.awaitSubCount()
+				r.Ctl = append(r.Ctl, CtlEv{Op: "sub", I: s.Idx})
+			}
+		case 2:
+			_ = r.B.Stats(ctx)
+		case 3:
+			// a channel nobody subscribed: whether or not the request gets through, nothing changes
+			r.B.Unsubscribe(ctx, make(chan int, r.Cfg.Buf))
+		}
+		cancel()
+	}
+	r.WaitLoopIdle()
+	if n, ok := r.statsSubs(); ok && n != r.nsubscribed {
+		r.fail("C08:Subscribe:ghost", "the event loop holds %d subscriptions, but only %d Subscribe calls returned a channel that is still subscribed (a Subscribe that returned nil registered its channel)", n, r.nsubscribed)
+	}
 }
 
 func (r *Runner) Pause(s *Sub)  { s.control("pause"); s.paused = true }
